@@ -239,6 +239,9 @@ class E1Check:
     def run(self, log=print):
         t0 = time.time()
         cfgs = self.configs()
+        # configurations with an initial history (ladder, wide, long runs) and fixpoint runs first: a time budget must
+        # not starve them behind the deep general-purpose searches
+        cfgs = sorted(cfgs, key=lambda c: 0 if (c.get("ladder") or c.get("init")) else (1 if "closure" in c["name"] else 2))
         res = explorer.explore(self, cfgs, self.alpha_args(), self.bounds(), budget_s=self.budget(), log=log)
         cov = {
             "states": res.states,
